@@ -252,6 +252,66 @@ example :
       (Spec.obsOf (Serve.serve Eany cfgHF .muxHandleF {} (get "deflate"))) = true := by
   decide
 
+/-! ### non-vacuity (audit): the remaining theorems instantiated; `Spec.c07Holds` falsified by wrong
+    observations of a request that meets every hypothesis -/
+
+/-- two codings offered; container filter + handler write five bytes in three chunks (`cfgN`) -/
+def rq : Serve.SReq := get "deflate, gzip"
+/-- the same request to a writer that already carries `Content-Encoding: br` -/
+def rqPrior : Serve.SReq := { get "gzip" with priorEncoding := "br".toList }
+
+/-- `C07_partial` on `cfgN` (first alternative of `hce`), and on `cfgU` — whose handler sets the
+    header itself — with a prior encoding (second alternative) -/
+example := C07_partial Eany cfgN .dispatch rq (by decide) (.inl (by decide))
+example : Serve.Enc.userCE cfgU = true ∧ rqPrior.priorEncoding.isEmpty = false := by decide
+example := C07_partial Eany cfgU .dispatch rqPrior (by decide) (.inr (by decide))
+/-- `C07_iff_partial`, both sides true on `cfgN`, both sides false on `cfgU` (`C07_userCE_witness`) -/
+example := (C07_iff_partial Eany cfgN .dispatch rq (by decide)).mpr (.inl (by decide))
+example : ¬ ((Spec.obsOf (Serve.serve Eany cfgU .dispatch {} (get ""))).coded = true ∨
+    (Spec.obsOf (Serve.serve Eany cfgU .dispatch {} (get ""))).ce = (get "").priorEncoding) := by decide
+
+/-- `C07_label`, `C07_requested`, `C07_decodes`, `C07_enabled_partial`: an encoded response
+    (hypothesis `hc`), from a used ledger -/
+example := C07_label Eany cfgN .dispatch { acquired := 3, released := 3 } rq
+  { coding := .deflate, payload := "abcde".toList, closed := true } (by decide)
+example := C07_requested Eany cfgN .serveDispatch {} rq { coding := .deflate, payload := "abcde".toList, closed := true } (by decide)
+example := C07_decodes Eany cfgP .dispatch {} (get "gzip") { coding := .gzip, payload := "abc!".toList, closed := true } (by decide)
+example := C07_enabled_partial Eany cfgN .dispatch {} rq (by decide) (by decide)
+/-- `C07_plain`: a response that is not encoded (no Accept-Encoding; encoding on) -/
+example := C07_plain Eany cfgN .dispatch {} (get "") (by decide)
+/-- `C07_prior`: gzip requested, encoding on, but the writer arrives with `Content-Encoding: br` -/
+example : (Serve.serve Eany cfgN .serveDispatch {} rqPrior).rc.comp = none ∧
+    (Spec.obsOf (Serve.serve Eany cfgN .serveDispatch {} rqPrior)).ce = "br".toList :=
+  C07_prior Eany cfgN .serveDispatch {} rqPrior (by decide)
+example : (Serve.serve Eany cfgN .serveDispatch {} rqPrior).rc.body = "abcde".toList := by decide
+
+/-- what the model answers: encoded (deflate) / not encoded (no Accept-Encoding) -/
+def oN : Spec.Obs := Spec.obsOf (Serve.serve Eany cfgN .dispatch {} rq)
+def oPlain : Spec.Obs := Spec.obsOf (Serve.serve Eany cfgN .dispatch {} (get ""))
+
+/-- `Spec.c07Holds` is not trivially true.  The encoded answer is falsified by: a decoded body that
+    lost a byte; chunks out of order; an incomplete stream; a label that is not the coding; no label;
+    two compressors (encoded twice); a coding the request did not mention; no Accept-Encoding at
+    all; encoding not enabled; a writer that carried a Content-Encoding on arrival.  The answer that
+    is not encoded is falsified by: an added Content-Encoding; other bytes; a compressor acquired. -/
+example :
+    Spec.c07Holds Eany cfgN .dispatch rq oN = true ∧
+    Spec.c07Holds Eany cfgN .dispatch rq { oN with body := "abcd".toList } = false ∧
+    Spec.c07Holds Eany cfgN .dispatch rq { oN with body := "cdeab".toList } = false ∧
+    Spec.c07Holds Eany cfgN .dispatch rq { oN with complete := false } = false ∧
+    Spec.c07Holds Eany cfgN .dispatch rq { oN with ce := "br".toList } = false ∧
+    Spec.c07Holds Eany cfgN .dispatch rq { oN with ce := [] } = false ∧
+    Spec.c07Holds Eany cfgN .dispatch rq { oN with acq := 2 } = false ∧
+    Spec.c07Holds Eany cfgN .dispatch (get "gzip") oN = false ∧
+    Spec.c07Holds Eany cfgN .dispatch (get "") oN = false ∧
+    Spec.c07Holds Eany { cfgN with encoding := false } .dispatch rq oN = false ∧
+    Spec.c07Holds Eany cfgN .dispatch { rq with priorEncoding := "br".toList } oN = false ∧
+    Spec.c07Holds Eany cfgN .dispatch (get "") oPlain = true ∧
+    Spec.c07Holds Eany cfgN .dispatch (get "") { oPlain with ce := "gzip".toList } = false ∧
+    Spec.c07Holds Eany cfgN .dispatch (get "") { oPlain with body := "abcd".toList } = false ∧
+    Spec.c07Holds Eany cfgN .dispatch (get "") { oPlain with acq := 1 } = false := by
+  decide
+
 end C07Witness
 
 /-! The frame condition (Lemmas/StateShape.lean): the code has exactly the state this property's model
